@@ -1520,119 +1520,115 @@ impl FixtureDatabase {
         cycles
     }
 
-    /// Actually compute fixture cycles using iterative DFS (Tarjan-like approach).
-    /// Uses iterative algorithm to avoid stack overflow on deep dependency graphs.
+    /// Actually compute fixture cycles using iterative DFS.
+    ///
+    /// The graph is built over fixture *definitions* (not names): every dependency is
+    /// resolved from the depending fixture's file with the same shadowing rules as
+    /// go-to-definition, and a dependency on the fixture's own name denotes the
+    /// definition it overrides (requesting one's own name with nothing to override is a
+    /// self-cycle, as in pytest). Nodes and edges are visited in a deterministic order
+    /// (file path, line), so the reported cycles and the fixture each is attached to do
+    /// not depend on registration order or hash iteration order.
+    /// Uses an iterative algorithm to avoid stack overflow on deep dependency graphs.
     fn compute_fixture_cycles(&self) -> Vec<super::types::FixtureCycle> {
         use super::types::FixtureCycle;
         use std::collections::HashMap;
 
-        // Build dependency graph: fixture_name -> dependencies (only known fixtures)
-        let mut dep_graph: HashMap<String, Vec<String>> = HashMap::new();
-        let mut fixture_defs: HashMap<String, FixtureDefinition> = HashMap::new();
-
+        // Collect all definitions in a deterministic order
+        let mut defs: Vec<FixtureDefinition> = Vec::new();
         for entry in self.definitions.iter() {
-            let fixture_name = entry.key().clone();
-            if let Some(def) = entry.value().first() {
-                fixture_defs.insert(fixture_name.clone(), def.clone());
-                // Only include dependencies that are known fixtures
-                let valid_deps: Vec<String> = def
-                    .dependencies
-                    .iter()
-                    .filter(|d| self.definitions.contains_key(*d))
-                    .cloned()
-                    .collect();
-                dep_graph.insert(fixture_name, valid_deps);
+            defs.extend(entry.value().iter().cloned());
+        }
+        defs.sort_by(|a, b| (&a.file_path, a.line, &a.name).cmp(&(&b.file_path, b.line, &b.name)));
+        defs.dedup_by(|a, b| a.file_path == b.file_path && a.line == b.line && a.name == b.name);
+
+        let index: HashMap<(std::path::PathBuf, usize, String), usize> = defs
+            .iter()
+            .enumerate()
+            .map(|(i, d)| ((d.file_path.clone(), d.line, d.name.clone()), i))
+            .collect();
+
+        // Resolve every dependency to the definition pytest would inject
+        let mut edges: Vec<Vec<usize>> = Vec::with_capacity(defs.len());
+        for def in &defs {
+            let mut targets: Vec<usize> = Vec::new();
+            for dep in &def.dependencies {
+                let resolved = if dep == &def.name {
+                    match self.find_closest_definition_excluding(&def.file_path, dep, Some(def)) {
+                        Some(parent) => Some(parent),
+                        // Nothing to override: the fixture requests itself
+                        None => Some(def.clone()),
+                    }
+                } else {
+                    self.find_closest_definition(&def.file_path, dep)
+                };
+                if let Some(target) = resolved {
+                    let key = (target.file_path.clone(), target.line, target.name.clone());
+                    if let Some(&j) = index.get(&key) {
+                        if !targets.contains(&j) {
+                            targets.push(j);
+                        }
+                    }
+                }
             }
+            edges.push(targets);
         }
 
         let mut cycles = Vec::new();
-        let mut visited: HashSet<String> = HashSet::new();
-        let mut seen_cycles: HashSet<String> = HashSet::new(); // Deduplicate cycles
+        let mut visited = vec![false; defs.len()];
+        let mut seen_cycles: HashSet<Vec<usize>> = HashSet::new(); // Deduplicate cycles
 
-        // Iterative DFS using explicit stack
-        for start_fixture in dep_graph.keys() {
-            if visited.contains(start_fixture) {
+        for start in 0..defs.len() {
+            if visited[start] {
                 continue;
             }
 
-            // Stack entries: (fixture_name, iterator_index, path_to_here)
-            let mut stack: Vec<(String, usize, Vec<String>)> =
-                vec![(start_fixture.clone(), 0, vec![])];
-            let mut rec_stack: HashSet<String> = HashSet::new();
+            // Stack entries: (node, index of the next edge to follow); `path` mirrors the stack
+            let mut stack: Vec<(usize, usize)> = vec![(start, 0)];
+            let mut path: Vec<usize> = vec![start];
+            let mut on_path = vec![false; defs.len()];
+            on_path[start] = true;
 
-            while let Some((current, idx, mut path)) = stack.pop() {
-                if idx == 0 {
-                    // First time visiting this node
-                    if rec_stack.contains(&current) {
-                        // Found a cycle
-                        let cycle_start_idx = path.iter().position(|f| f == &current).unwrap_or(0);
-                        let mut cycle_path: Vec<String> = path[cycle_start_idx..].to_vec();
-                        cycle_path.push(current.clone());
-
-                        // Create a canonical key for deduplication (sorted cycle representation)
-                        let mut cycle_key: Vec<String> =
-                            cycle_path[..cycle_path.len() - 1].to_vec();
-                        cycle_key.sort();
-                        let cycle_key_str = cycle_key.join(",");
-
-                        if !seen_cycles.contains(&cycle_key_str) {
-                            seen_cycles.insert(cycle_key_str);
-                            if let Some(fixture_def) = fixture_defs.get(&current) {
-                                cycles.push(FixtureCycle {
-                                    cycle_path,
-                                    fixture: fixture_def.clone(),
-                                });
-                            }
+            while let Some((node, edge_idx)) = stack.last().copied() {
+                if edge_idx < edges[node].len() {
+                    stack.last_mut().unwrap().1 += 1;
+                    let next = edges[node][edge_idx];
+                    if on_path[next] {
+                        // Found a cycle: path[pos(next)..] closes back to `next`
+                        let pos = path.iter().position(|&n| n == next).unwrap_or(0);
+                        let mut cycle_nodes: Vec<usize> = path[pos..].to_vec();
+                        // Canonical rotation: start at the smallest node so the report is
+                        // attached to the same fixture however the cycle was entered
+                        if let Some(min_pos) = cycle_nodes
+                            .iter()
+                            .enumerate()
+                            .min_by_key(|(_, &n)| n)
+                            .map(|(p, _)| p)
+                        {
+                            cycle_nodes.rotate_left(min_pos);
                         }
-                        continue;
-                    }
-
-                    rec_stack.insert(current.clone());
-                    path.push(current.clone());
-                }
-
-                // Get dependencies for current node
-                let deps = match dep_graph.get(&current) {
-                    Some(d) => d,
-                    None => {
-                        rec_stack.remove(&current);
-                        continue;
-                    }
-                };
-
-                if idx < deps.len() {
-                    // Push current back with next index
-                    stack.push((current.clone(), idx + 1, path.clone()));
-
-                    let dep = &deps[idx];
-                    if rec_stack.contains(dep) {
-                        // Found a cycle through this dependency
-                        let cycle_start_idx = path.iter().position(|f| f == dep).unwrap_or(0);
-                        let mut cycle_path: Vec<String> = path[cycle_start_idx..].to_vec();
-                        cycle_path.push(dep.clone());
-
-                        let mut cycle_key: Vec<String> =
-                            cycle_path[..cycle_path.len() - 1].to_vec();
-                        cycle_key.sort();
-                        let cycle_key_str = cycle_key.join(",");
-
-                        if !seen_cycles.contains(&cycle_key_str) {
-                            seen_cycles.insert(cycle_key_str);
-                            if let Some(fixture_def) = fixture_defs.get(dep) {
-                                cycles.push(FixtureCycle {
-                                    cycle_path,
-                                    fixture: fixture_def.clone(),
-                                });
-                            }
+                        let mut key = cycle_nodes.clone();
+                        key.sort_unstable();
+                        if seen_cycles.insert(key) {
+                            let mut cycle_path: Vec<String> =
+                                cycle_nodes.iter().map(|&n| defs[n].name.clone()).collect();
+                            cycle_path.push(defs[cycle_nodes[0]].name.clone());
+                            cycles.push(FixtureCycle {
+                                cycle_path,
+                                fixture: defs[cycle_nodes[0]].clone(),
+                            });
                         }
-                    } else if !visited.contains(dep) {
-                        // Explore this dependency
-                        stack.push((dep.clone(), 0, path.clone()));
+                    } else if !visited[next] {
+                        stack.push((next, 0));
+                        path.push(next);
+                        on_path[next] = true;
                     }
                 } else {
                     // Done with this node
-                    visited.insert(current.clone());
-                    rec_stack.remove(&current);
+                    visited[node] = true;
+                    on_path[node] = false;
+                    stack.pop();
+                    path.pop();
                 }
             }
         }
@@ -1668,35 +1664,47 @@ impl FixtureDatabase {
 
         let mut mismatches = Vec::new();
 
-        // Get fixtures defined in this file
-        let Some(fixture_names) = self.file_definitions.get(file_path) else {
-            return mismatches;
+        // Get fixtures defined in this file (copied out so no map guard is held while
+        // resolving dependencies)
+        let mut fixture_names: Vec<String> = match self.file_definitions.get(file_path) {
+            Some(names) => names.iter().cloned().collect(),
+            None => return mismatches,
         };
+        fixture_names.sort();
 
-        for fixture_name in fixture_names.iter() {
-            // Get the fixture definition
-            let Some(definitions) = self.definitions.get(fixture_name) else {
-                continue;
+        for fixture_name in &fixture_names {
+            // Every definition of this name in this file
+            let mut fixture_defs: Vec<FixtureDefinition> = match self.definitions.get(fixture_name)
+            {
+                Some(definitions) => definitions
+                    .iter()
+                    .filter(|d| d.file_path == file_path)
+                    .cloned()
+                    .collect(),
+                None => continue,
             };
+            fixture_defs.sort_by_key(|d| d.line);
 
-            // Find the definition in this file
-            let Some(fixture_def) = definitions.iter().find(|d| d.file_path == file_path) else {
-                continue;
-            };
-
-            // Check each dependency
-            for dep_name in &fixture_def.dependencies {
-                // Find the dependency's definition (use resolution logic to get correct one)
-                if let Some(dep_definitions) = self.definitions.get(dep_name) {
-                    // Find best matching definition for the dependency
-                    // Use the first one (most local) - matches cycle detection behavior
-                    if let Some(dep_def) = dep_definitions.first() {
+            for fixture_def in &fixture_defs {
+                // Check each dependency against the definition resolution selects for it
+                // from this file (the fixture's own name denotes the definition it overrides)
+                for dep_name in &fixture_def.dependencies {
+                    let dep_def = if dep_name == &fixture_def.name {
+                        self.find_closest_definition_excluding(
+                            file_path,
+                            dep_name,
+                            Some(fixture_def),
+                        )
+                    } else {
+                        self.find_closest_definition(file_path, dep_name)
+                    };
+                    if let Some(dep_def) = dep_def {
                         // Check if scope mismatch: fixture has broader scope than dependency
                         // FixtureScope is ordered: Function < Class < Module < Package < Session
                         if fixture_def.scope > dep_def.scope {
                             mismatches.push(ScopeMismatch {
                                 fixture: fixture_def.clone(),
-                                dependency: dep_def.clone(),
+                                dependency: dep_def,
                             });
                         }
                     }
